@@ -160,7 +160,24 @@ type c19Resp struct {
 	Body   []byte
 }
 
-func (e *c19Env) post(path, sqlText string, hdr map[string]string) (c19Resp, error) {
+// post sends one request; a panic inside fiber's in-memory test transport (seen
+// under heavy machine load) is turned into a transport error and re-requested.
+func (e *c19Env) post(path, sqlText string, hdr map[string]string) (r c19Resp, err error) {
+	for a := 0; a < 3; a++ {
+		r, err = e.post1(path, sqlText, hdr)
+		if err == nil || !strings.Contains(err.Error(), "panic in fiber test transport") {
+			return r, err
+		}
+	}
+	return r, err
+}
+
+func (e *c19Env) post1(path, sqlText string, hdr map[string]string) (out c19Resp, err error) {
+	defer func() {
+		if p := recover(); p != nil {
+			out, err = c19Resp{}, fmt.Errorf("panic in fiber test transport: %v", p)
+		}
+	}()
 	b, _ := json.Marshal(QueryRequest{SQL: sqlText})
 	req := httptest.NewRequest("POST", path, bytes.NewReader(b))
 	req.Header.Set("Content-Type", "application/json")
